@@ -1,7 +1,8 @@
 (* Executable model of the interactive interpreter's state machine
-   (interpreter/interpreter.go, after fixes N2 and N5).
+   (interpreter/interpreter.go, after fixes N2, N5, N30 and N32).
 
-   What is modelled: the stack of source fragments (i.src + i.sourceFragments),
+   What is modelled: the stack of source fragments (i.src + i.sourceFragments, two
+   parallel slices since fix N30: the same pathset can be on the stack twice),
    the known-predicate table (i.knownPredicates), the interactive buffer
    (i.buffer) and the layered stores.  i.simpleStore and i.temporalStore are
    pushed and popped in lock step (pushSourceFragment :411 layers a teeing
@@ -50,8 +51,11 @@ Inductive result := ROk | RParse | RAnalysis | REval | RUnknown.
 Definition result_code (r : result) : Z :=
   match r with ROk => 0 | RParse => 1 | RAnalysis => 2 | REval => 3 | RUnknown => 4 end.
 Definition is_ok (r : result) : bool := match r with ROk => true | _ => false end.
-(* a Load leaves its fragment pushed when analysis succeeded, even if evaluation then fails *)
-Definition pushed (r : result) : bool := match r with ROk | REval => true | _ => false end.
+(* whether a Define / Load left its fragment pushed: only when it succeeded (since fix N32 a
+   Load whose evaluation fails pops its fragment again, as Define does since N5) *)
+Definition pushed (r : result) : bool := match r with ROk => true | _ => false end.
+(* before N32 a Load left its fragment pushed when analysis succeeded, even if evaluation then failed *)
+Definition pushed_old (r : result) : bool := match r with ROk | REval => true | _ => false end.
 
 Inductive cmd := CDefine (t : chunk) | CLoad (p : path) | CPop | CQuery (q : pred).
 
@@ -133,8 +137,8 @@ Section Interp.
         if ok then (s3, ROk) else (restore s (pop_frag s3), REval)
     end.
 
-  (* Load :179 + pushLoadedFragment :201. The interactive definitions are dropped first,
-     whatever happens next; a fragment whose evaluation fails stays pushed. *)
+  (* Load :183 + pushLoadedFragment :207 (fixed, N32). The interactive definitions are dropped
+     first, whatever happens next; a fragment whose evaluation fails is popped again. *)
   Definition load (p : path) (s : state) : state * result :=
     let s1 := reset_interactive [] s in
     if negb (parse (SFile p)) then (s1, RParse) else
@@ -142,7 +146,7 @@ Section Interp.
     | None => (s1, RAnalysis)
     | Some pr =>
         let '(s3, ok) := eval_program pr (push (SFile p) pr s1) in
-        (s3, if ok then ROk else REval)
+        if ok then (s3, ROk) else (pop_frag s3, REval)
     end.
 
   (* Pop :319 *)
@@ -178,7 +182,8 @@ Section Interp.
 
   (* [s] is the state in which [c] is executed. All interactive definitions form ONE
      fragment: a successful define joins it, a Load (successful or not) or a Pop ends it;
-     a Pop without interactive definitions removes the last loaded fragment. *)
+     a successful Load is live until a Pop without interactive definitions removes the last
+     loaded fragment. *)
   Definition live_step (s : state) (c : cmd) (l : list cmd) : list cmd :=
     match c with
     | CDefine _ => if is_ok (snd (step s c)) then c :: l else l
@@ -210,31 +215,68 @@ Section Interp.
         let '(s3, ok) := eval_program p (push (SInter b) p s1) in
         (s3, if ok then ROk else REval)
     end.
-  Definition load_old (popf : state -> state) (p : path) (s : state) : state * result :=
+  (* Load before N32 (fixN32 = false): the fragment stays pushed when evaluation fails *)
+  Definition load_old (popf : state -> state) (fixN32 : bool) (p : path) (s : state) : state * result :=
     let s1 := set_buffer [] (if has_interactive s then popf s else s) in
     if negb (parse (SFile p)) then (s1, RParse) else
     match analyse (SFile p) (known s1) with
     | None => (s1, RAnalysis)
     | Some pr =>
         let '(s3, ok) := eval_program pr (push (SFile p) pr s1) in
-        (s3, if ok then ROk else REval)
+        if ok then (s3, ROk) else (if fixN32 then popf s3 else s3, REval)
     end.
   Definition pop_old (popf : state -> state) (s : state) : state :=
     match frags s with
     | [] => s
     | _ => if has_interactive s then set_buffer [] (popf s) else popf s
     end.
-  (* fixN2 = false: old pop; fixN5 = false: old define *)
-  Definition step_var (fixN2 fixN5 : bool) (s : state) (c : cmd) : state * result :=
+  (* fixN2 = false: old pop; fixN5 = false: old define; fixN32 = false: old load *)
+  Definition step_var (fixN2 fixN5 fixN32 : bool) (s : state) (c : cmd) : state * result :=
     let popf := if fixN2 then pop_frag else pop_frag_old in
     match c with
     | CDefine t => if fixN5 then define t s else define_old popf t s
-    | CLoad p => load_old popf p s
+    | CLoad p => load_old popf fixN32 p s
     | CPop => (pop_old popf s, ROk)
     | CQuery q => (s, if k_mem q (known s) then ROk else RUnknown)
     end.
-  Fixpoint run_var (fixN2 fixN5 : bool) (s : state) (cs : list cmd) : state :=
-    match cs with [] => s | c :: r => run_var fixN2 fixN5 (fst (step_var fixN2 fixN5 s c)) r end.
+  Fixpoint run_var (fixN2 fixN5 fixN32 : bool) (s : state) (cs : list cmd) : state :=
+    match cs with [] => s | c :: r => run_var fixN2 fixN5 fixN32 (fst (step_var fixN2 fixN5 fixN32 s c)) r end.
+
+  (* Before N30 i.sourceFragments was a map keyed by pathset beside the stack i.src. A push
+     stored map[pathset] = fragment (overwriting an entry of the same pathset), a pop looked
+     the top pathset of i.src up, deleted the entry and dereferenced what it had found. The
+     entry found, if any, is the fragment pushed last under that pathset, which is the top of
+     the stack; so the old code behaves like the fixed one except that a pop whose pathset
+     has no entry any more panics. [keys] = the pathsets that have an entry; None = panic.
+     (The interactive fragment has the fixed key "interactive-buffer" and is never on the
+     stack twice: Define pops it before it pushes the next one.) *)
+  Definition key_mem (p : path) (keys : list path) : bool := existsb (Z.eqb p) keys.
+  Definition key_del (p : path) (keys : list path) : list path := filter (fun q => negb (p =? q)) keys.
+  Definition step_keyed (sk : state * list path) (c : cmd) : option (state * list path) :=
+    let '(s, keys) := sk in
+    match c with
+    | CLoad p => Some (fst (step s c),
+                       match snd (step s c) with
+                       | ROk => p :: key_del p keys
+                       | REval => key_del p keys      (* pushed, then popped again: the entry is deleted *)
+                       | _ => keys
+                       end)
+    | CPop =>
+        match frags s with
+        | [] => Some (s, keys)
+        | f :: _ =>
+            match f_src f with
+            | SInter _ => Some (pop s, keys)
+            | SFile p => if key_mem p keys then Some (pop s, key_del p keys) else None
+            end
+        end
+    | _ => Some (fst (step s c), keys)
+    end.
+  Fixpoint run_keyed (sk : state * list path) (cs : list cmd) : option (state * list path) :=
+    match cs with
+    | [] => Some sk
+    | c :: r => match step_keyed sk c with Some sk' => run_keyed sk' r | None => None end
+    end.
 End Interp.
 
 Arguments init {prog}.
